@@ -745,7 +745,7 @@ def adapt_typehints(
     default=None,
     logger=None,
 ):
-    if type(val) in {str, bool, int, float} and val == default:
+    if type(val) in {str, bool, int, float} and type(val) is type(default) and val == default:
         return val
 
     adapt_kwargs = {
